@@ -6,7 +6,7 @@ OUT=${1:-/tmp/seedmatrix.txt}
 W=${SEEDREPO:-/tmp/seedrepo}
 git -C /repo worktree remove --force $W 2>/dev/null
 git -C /repo worktree add -q --detach $W HEAD
-mkdir -p /tmp/seedout
+SO=${SEEDOUT:-/tmp/seedout}; mkdir -p $SO
 H=$(mktemp -d /tmp/harness.XXXX); cp -r /verif/harness/. $H/; cp /verif/bin/vcheck $H/vcheck; export VERIF_HARNESS=$H
 : > $OUT
 for d in /verif/seeded/${SEEDGLOB:-C*}; do
@@ -21,7 +21,7 @@ for d in /verif/seeded/${SEEDGLOB:-C*}; do
   demo=$(cd $W && go test $rflag -vet=off -count=1 ./$place 2>&1 | grep -aE "^(ok|FAIL|---)" | tail -1 | cut -c1-20)
   rm $W/$place/zz_seed_demo_test.go
   t0=$(date +%s)
-  out=$(cd /verif && VERIF_REPO=$W VERIF_OUT=/tmp/seedout $H/vcheck run $prop 2>&1); rc=$?
+  out=$(cd /verif && VERIF_REPO=$W VERIF_OUT=$SO $H/vcheck run $prop 2>&1); rc=$?
   t1=$(date +%s)
   nv=$(echo "$out" | grep -c "^VIOLATION")
   echo "$id $prop demo=[$demo] exit=$rc violations=$nv secs=$((t1-t0))" >> $OUT
